@@ -337,6 +337,79 @@ def extra(ctx, uberjob):
                              % (workers, defect or "well-formed", outcome, completed, len(shape)),
                              {"shape": name, "max_workers": workers, "decisions": r.sched.decisions[:4000] if r else None,
                               "notifications": [repr(e) for e in seq[:80]]})
+    # (c) transform_physical may return a NEW plan (a copy it edited): the account describes the plan that is executed
+    import operator
+    for how in ("in-place", "copy-add", "copy-replace"):
+        plan = uberjob.Plan()
+        with plan.scope("math"):
+            x = plan.call(pow, 2, 3)
+            y = plan.call(operator.neg, x)
+
+        def tp(pl, out, how=how):
+            if how == "in-place":
+                with pl.scope("extra"):
+                    pl.add_dependency(pl.call(abs, -1), out)
+                return pl, out
+            q = pl.copy()
+            if how == "copy-add":
+                with q.scope("extra"):
+                    q.add_dependency(q.call(abs, -1), out)
+                    q.add_dependency(q.call(abs, -2), out)
+                return q, out
+            with q.scope("other"):
+                z = q.call(operator.add, 40, 2)
+            return q, z
+        prog = RecProgress()
+        try:
+            uberjob.run(plan, output=y, progress=prog, transform_physical=tp, max_workers=1)
+            oc = "returned"
+        except BaseException as e:      # noqa
+            oc = "raised %r" % (e,)
+        seq = prog.made[0].seq if prog.made else []
+        d = py_wf(seq)
+        tot = sum(e[2][1] for e in seq if e[0] == "total" and e[1] == "run")
+        done = sum(1 for e in seq if e[0] == "completed" and e[1] == "run")
+        ctx.case(("c15-transform", how))
+        if d or oc != "returned" or tot != done:
+            ctx.fail("transform:account", "transform_physical (%s): %s; run %s; totals announced %d, completed %d" % (how, d or "well-formed", oc, tot, done),
+                     {"transform": how, "notifications": [repr(e) for e in seq[:40]]})
+    # (d) Ctrl-C while a call is in flight: the account is still closed when run raises - the in-flight call's completion is
+    # reported BEFORE the observer is exited, nothing is reported afterwards
+    import signal
+    import time
+    for workers in (1, 3):
+        release = threading.Event()
+
+        def slow():
+            time.sleep(0.15)
+            signal.pthread_kill(threading.main_thread().ident, signal.SIGINT)
+            release.wait(5)
+            time.sleep(0.3)
+            return 1
+        plan = uberjob.Plan()
+        a = plan.call(slow)
+        b = plan.call(lambda v: v, a)
+        prog = RecProgress()
+        timer = threading.Timer(0.6, release.set)
+        timer.start()
+        try:
+            try:
+                uberjob.run(plan, output=b, progress=prog, max_workers=workers)
+                oc = "returned"
+            except KeyboardInterrupt:
+                oc = "interrupted"
+        except KeyboardInterrupt:
+            oc = "interrupted-late"
+        at_raise = len(prog.made[0].seq) if prog.made else 0
+        time.sleep(0.8)
+        timer.cancel()
+        seq = prog.made[0].seq if prog.made else []
+        d = py_wf(seq[:at_raise])
+        ctx.case(("c15-interrupt", workers))
+        ctx.count("c15_interrupt_outcome", oc)
+        if oc == "interrupted" and (d or len(seq) != at_raise):
+            ctx.fail("interrupt:account", "Ctrl-C during a call: when run raised, the observer's account was: %s; %d notification(s) arrived after run had raised: %r"
+                     % (d or "well-formed", len(seq) - at_raise, seq[at_raise:][:4]), {"max_workers": workers, "notifications": [repr(e) for e in seq[:30]]})
     # (b)
     for form in ("composite", "nested-composite", "list"):
         members = [RecProgress(), RecProgress()]
